@@ -69,27 +69,45 @@ def _z3_try(ob, timeout_ms, seed=0):
 
 
 def _check_one(i):
-    """z3 quick -> cvc5 -> z3 long -> cvc5 finite-model-find (counter-models)"""
+    """portfolio: z3 quick -> z3 other seed -> cvc5 -> z3 longer seeds -> cvc5 finite-model-find (counter-models)"""
     ob = _OBLS[i]
     both = _CFG.get('both', False)
     res = {'name': ob.name, 'z3': None, 'z3_s': 0.0, 'cvc5': None, 'cvc5_s': 0.0,
            'model': None, 'reason': None}
-    r, tz, s = _z3_try(ob, _CFG.get('z3_quick', int(os.environ.get('PYVC_Z3_QUICK_MS', '2000'))))
+    budget = _CFG.get('z3_timeout', Z3_TIMEOUT_MS)
+    cbudget = _CFG.get('cvc5_timeout', CVC5_TIMEOUT_MS)
+    quick = _CFG.get('z3_quick', int(os.environ.get('PYVC_Z3_QUICK_MS', '2000')))
+    tz = 0.0
+    r, s = z3.unknown, None
+    for seed, tmo in ((0, quick), (2, 2 * quick)):
+        r, t_, s = _z3_try(ob, tmo, seed=seed)
+        tz += t_
+        if r != z3.unknown:
+            break
     res['z3'], res['z3_s'] = str(r), round(tz, 3)
     text = None
     if r == z3.unknown or both:
         text = _smt2(_BG + ob.assumptions, ob.goal)
-        c, tc = _cvc5(text, _CFG.get('cvc5_timeout', CVC5_TIMEOUT_MS))
+        c, tc = _cvc5(text, min(cbudget, 10000))
         res['cvc5'], res['cvc5_s'] = c, round(tc, 3)
     if r == z3.unknown and res['cvc5'] == 'unknown':
-        r, tz2, s = _z3_try(ob, _CFG.get('z3_timeout', Z3_TIMEOUT_MS), seed=7)
-        res['z3'], res['z3_s'] = str(r), round(tz + tz2, 3)
+        for seed, tmo in ((3, budget // 3), (5, budget // 3), (7, budget)):
+            r, t_, s = _z3_try(ob, max(2000, tmo), seed=seed)
+            tz += t_
+            if r != z3.unknown:
+                break
+        res['z3'], res['z3_s'] = str(r), round(tz, 3)
         if r == z3.unknown:
             res['reason'] = s.reason_unknown()
-            c2, tc2 = _cvc5(text, min(10000, _CFG.get('cvc5_timeout', CVC5_TIMEOUT_MS)), finite=True)
+            c2, tc2 = _cvc5(text, cbudget)
             res['cvc5_s'] = round(res['cvc5_s'] + tc2, 3)
-            if c2 == 'sat':
-                res['cvc5'] = 'sat'
+            if c2 in ('sat', 'unsat'):
+                res['cvc5'] = c2
+            else:
+                c3, tc3 = _cvc5(text, min(10000, cbudget), finite=True)
+                res['cvc5_s'] = round(res['cvc5_s'] + tc3, 3)
+                if c3 == 'sat':
+                    res['cvc5'] = 'sat'
     if r == z3.sat:
         try:
             res['model'] = _short_model(s.model())
